@@ -46,6 +46,7 @@ B0 = ('body', 0)
 EMB = {
     'expr':              [Emb(['('], ')', B0 + ('value',)), Emb(['['], ']', B0 + ('value', 'elts'), 'one')],
     'expr_slice':        Emb(['_['], ']', B0 + ('value', 'slice')),
+    'expr_all':          [Emb(['_['], ']', B0 + ('value', 'slice')), Emb(['('], ')', B0 + ('value',)), Emb(['_('], ')', B0 + ('value', 'args'), 'one')],     # documented: whatever a subscript takes, except that a lone `*a` WITHOUT a comma stays a Starred (judge)
     'expr_arglike':      [Emb(['('], ')', B0 + ('value',)), Emb(['_('], ')', B0 + ('value', 'args'), 'one')],
     'keyword':           Emb(['_('], ')', B0 + ('value', 'keywords'), 'one', 'k=_'),
     'arguments':         Emb(['def _('], '): pass', B0 + ('args',), placeholder='_h'),
@@ -172,6 +173,8 @@ def judge1(mode, src, e, ts):
         exp = hole[1:]
     else:
         exp = hole
+    if mode == 'expr_all' and isinstance(exp, ast.Tuple) and len(exp.elts) == 1 and isinstance(exp.elts[0], ast.Starred) and not any(t.string == ',' for t in ts[-1:]):
+        exp = exp.elts[0]      # `*a` alone: the subscript makes a one-element tuple of it, the mode's result is the Starred (a trailing comma makes it a Tuple)
     # the fragment's tokens must all belong to the result (nothing of it may have been taken for wrapper syntax)
     k = e.k
     nodes = exp if isinstance(exp, list) else [exp]
@@ -192,7 +195,7 @@ def judge1(mode, src, e, ts):
             trail = [t for t in ts if b(t) >= en]
             if any(t.string != '(' for t in lead) or any(t.string not in ((')', ',', ';') if mode == 'stmt' else (')', ',')) for t in trail) or sum(t.string == '(' for t in lead) != sum(t.string == ')' for t in trail):
                 # tokens outside the result other than balanced enclosing parentheses / a trailing comma
-                if not (mode in ('expr', 'pattern', 'expr_slice', 'expr_arglike') and isinstance(first, (ast.Tuple, ast.MatchSequence))):
+                if not (mode in ('expr', 'pattern', 'expr_slice', 'expr_arglike', 'expr_all') and isinstance(first, (ast.Tuple, ast.MatchSequence))):
                     return ('invalid', 'part of the fragment lies outside the parsed element')
     return ('valid', exp, k)
 
@@ -267,6 +270,8 @@ def fragments_from(tree, rng):
 HOSTILE = {
     'expr': ["'é';", "f('ü', 'ö');", 'ä;', ')+(', 'a),(b', 'a) if (b', 'a, b', 'a,\nb', '*a', '*a,', 'a:b', 'x for x in y', '', '#c', 'a;', 'a\nb', 'yield', 'a := b', '(a', 'a)', 'a # c\n', '\\\na', ' a', 'a if b', '*not a', 'lambda: a, b'],
     'expr_slice': ['a:b', 'a:b:c, d', '*a', '*not a', '][', 'a][b', ':', '::', 'a,', '', 'x for x in y', 'a:b]=[c'],
+    'expr_all': ['*a\n ,', '*ab\n  ,', '*a  # c\n ,', '*é\n  ,', '*a,', '*a\n,', '*a', 'a:b', 'a:b:c, d', 'a, b', 'a,\nb', '*a, *b', '*a\n, b', 'x for x in y', '', 'a := b', 'yield', '*not a', '*a\n  ,  # c',
+                 '*(a)\n ,', '*a \\\n ,', ')+(', 'a][b', 'a)(b', ':', '*a:b'],
     'expr_arglike': ['*a', '*not a', 'a, b', 'a=b', '**a', 'x for x in y', ')(', 'a)(b', '', 'a:b'],
     'keyword': ['a=1', 'a=1, b=2', '**k', 'a', 'a=1)(b=2', 'a=1), _(b=2', '', 'a=(yield)', 'a = 1,', 'a=1 # c', '*a', 'a==1', 'a=x for x in y'],
     'arguments': [')->(', 'a)->(b', 'a, b=1, /, c, *, d, **e', '', '*', 'a=', 'a: int=3', '*a: *b', '): pass\ndef g(', 'a,', '/', 'self, /,', '**k,'],
@@ -282,9 +287,9 @@ HOSTILE = {
                       ' except: pass', 'except: pass\nfinally: pass\ntry: pass'],
     '_ExceptHandlers': ['except A: pass\nexcept B: pass', '', 'except: pass\nelse: pass', 'except* A: pass\nexcept* B: pass', 'except A: pass\nexcept* B: pass'],
     'pattern': ['a', '1', 'a | b', '[a, *b]', 'a, b', '*a', '{1: a, **r}', 'C(x, y=1)', 'a as b', '(a)', '', 'a) if (b', 'a): pass\n case (b', 'a if b', '1 + 2j', '-1', 'a.b', '_', '[a]if[b]', 'x]if['],
-    'comprehension': ['for a in b', 'for a in b if c', 'async for a in b', 'for a in b for c in d', 'if a', '', 'for a in b]+[c', 'for a, b in c if d if e', 'for a in b,'],
-    '_comprehensions': ['for a in b for c in d', '', 'if x for a in b', 'for a in b] + [c for d in e'],
-    '_comprehension_ifs': ['if a if b', '', 'for a in b', 'if a for b in c', 'if a] + [b'],
+    'comprehension': ['(x) for a in b', '+ 1 for a in b', '.y for a in b', '[0] for a in b', 'if z else w for a in b', ', q for a in b', 'for a in b', 'for a in b if c', 'async for a in b', 'for a in b for c in d', 'if a', '', 'for a in b]+[c', 'for a, b in c if d if e', 'for a in b,'],
+    '_comprehensions': ['.y for a in b', '(x) for a in b', '+ 1 for a in b', '[0] for a in b', 'or z for a in b', 'if q else r for a in b', 'for a in b for c in d', '', 'if x for a in b', 'for a in b] + [c for d in e'],
+    '_comprehension_ifs': ['.y if a', '(x) if a', '+ 1 if a', 'or z if a', 'if a if b', '', 'for a in b', 'if a for b in c', 'if a] + [b'],
     '_decorator_list': ['@a', '@a\n@b(c)', '', 'a', '@a\nclass X: pass\n@b', '@a # c\n\n@b', '@(yield)'],
     'type_param': ['T', 'T: int', '*Ts', '**P', 'T, U', '', 'T = int', 'T] = int; type X[U'],
     '_type_params': ['T, U', 'T: int, *Ts, **P', '', 'T,', 'T] = int; type X[U'],
@@ -425,7 +430,7 @@ def check_fragment(ctx, mode, src, origin):
         pairs = [(f.a, exp)]
     for g, x in pairs:
         xs = shifted(x, k)
-        skip_root = isinstance(x, (ast.Tuple, ast.MatchSequence)) and mode in ('expr', 'pattern', 'expr_slice', 'expr_arglike') and x.lineno <= k
+        skip_root = isinstance(x, (ast.Tuple, ast.MatchSequence)) and mode in ('expr', 'pattern', 'expr_slice', 'expr_arglike', 'expr_all') and x.lineno <= k
         if skip_root:
             for p in ('lineno', 'col_offset', 'end_lineno', 'end_col_offset'):
                 setattr(xs, p, getattr(g, p, None))
@@ -519,6 +524,7 @@ def stage_fragments(ctx: Ctx, progs):
         for m, l in fragments_from(t, rng).items():
             pool[m] += l
     per_mode = ctx.scale(45, 600)
+    pool['expr_all'] = pool.get('expr', [])[::3] + pool.get('expr_slice', [])[::2] + pool.get('expr_arglike', [])[::3]
     for mode in EMB:
         if mode == 'exec':
             continue
@@ -623,6 +629,41 @@ def stage_guard(ctx: Ctx):
         terms.append(f'Bool.eqb (negb (isnone (guard 0 [{syms}]))) {cbool(real)}')
         meta.append({'line': line, 'e0': [col0, end0], 'scanned': scanned, 'real_accepts': real})
         ctx.tick(('guard', line), 'guard:' + ('accept' if real else 'refuse'))
+    # several lines: lines above the first element, the rest of its line and following lines, each with an optional comment that may contain ')' and ','
+    cm = lambda: rng.choice(['', '', ' # c', ' # ),(', ' # x, y', '# oops :), sorry', ' #,'])
+    code = lambda n, alphabet='() a': ''.join(rng.choice(alphabet) for _ in range(rng.randrange(0, n)))
+    for it in range(ctx.scale(400, 5000)):
+        above = [code(4) + cm() for _ in range(rng.randrange(0, 3))]
+        pre = code(4)
+        e0 = rng.choice(['x', 'foo', '(y)', 'é', '(a,\n b)'])
+        rest = code(4, '() a,' if rng.random() < 0.3 else '() a') + cm()
+        below = [code(5, '() a,' if rng.random() < 0.4 else '() a') + cm() for _ in range(rng.randrange(0, 4))]
+        e0_lines = e0.split('\n')
+        lines = above + [pre + e0_lines[0]] + e0_lines[1:]
+        lines[-1] += rest
+        lines += below
+        e0_ln = len(above)
+        e0_end_ln = e0_ln + len(e0_lines) - 1
+        col0 = len(pre.encode())
+        end0 = len(((pre if len(e0_lines) == 1 else '') + e0_lines[-1]).encode())
+        end_ln = rng.randrange(e0_end_ln, len(lines))
+        try:
+            parsex._verify_no_close_delimiters(lines, e0_ln, col0, e0_end_ln, end0, end_ln)
+            real = True
+        except SyntaxError:
+            real = False
+        strip_c = lambda l: l[:l.index('#')] if '#' in l else l
+        scanned = ''.join(strip_c(l).strip() for l in above) + pre.strip()
+        for l in [rest] + lines[e0_end_ln + 1:end_ln + 1]:
+            l = strip_c(l)
+            if ',' in l:
+                scanned += l[:l.index(',')].strip()
+                break
+            scanned += l.strip()
+        syms = '; '.join('DOpen' if c == '(' else 'DClose' if c == ')' else 'DOther' for c in scanned if c != ' ')
+        terms.append(f'Bool.eqb (negb (isnone (guard 0 [{syms}]))) {cbool(real)}')
+        meta.append({'lines': lines, 'e0': [e0_ln, col0, e0_end_ln, end0], 'end_ln': end_ln, 'scanned': scanned, 'real_accepts': real})
+        ctx.tick(('guard', tuple(lines), end_ln), 'guard-multiline:' + ('accept' if real else 'refuse'))
     failed = coq_eval_bools('C05_guard', HDR, terms, shard=500)
     ctx.correspondence('models/Wrap.v guard == parsex._verify_no_close_delimiters (accept/refuse) on the text outside the first element', len(terms), [meta[i] for i in failed])
     # wrapper geometry on the model vs Python: spans of an embedding
